@@ -377,7 +377,7 @@ def r6(db, rep):
             continue
         uses1 = any(x.get("k") == "Index" and (x["i"].get("v") or {}).get("int") == 1 for x in walk(db.hir[h]["body"]))
         forms = list(itertools.product(("REG", "MEM", "IMM"), repeat=2 if uses1 else 1))
-        worst = None
+        found = {}
         skipped = 0
         for form in forms:
             f2 = form if len(form) == 2 else form + ("REG",)
@@ -387,15 +387,18 @@ def r6(db, rep):
                 continue
             asm = {("obj", "details(param0).operands[%d].type_" % k): OPT + t for k, t in enumerate(form)}
             res = sh.run(h, assume=asm)
-            hz = [x for x in c02.hazards(res, names, canon) if (nm, last_seg(x[1]["fn"])) not in HAZARD_OK]
-            if hz and worst is None:
-                worst = (form, hz[0])
+            for x in c02.hazards(res, names, canon):
+                w, rd, wid, rid = x
+                if (nm, last_seg(rd["fn"])) in HAZARD_OK:
+                    continue
+                # one instance per (operand 0 form, reading operation): a second, different hazard in the same handler is a new key
+                k = (form[0], "%s.%s" % (last_seg(rd["fn"]), rd["kind"]))
+                found.setdefault(k, (form, x))
         n += 1
-        if worst is None:
+        if not found:
             r.ok("x86|%s" % nm, db.where(db.hir[h]), detail={"forms": len(forms) - skipped})
-        else:
-            form, (w, rd, wid, rid) = worst
-            r.bad("x86|%s" % nm, db.where(db.hir.get(rd["fn"]) or db.hir[h], rd["line"]),
+        for (f0, reader), (form, (w, rd, wid, rid)) in sorted(found.items()):
+            r.bad("x86|%s|%s|%s" % (nm, f0, reader), db.where(db.hir.get(rd["fn"]) or db.hir[h], rd["line"]),
                   "%s with operands %s writes %s (in %s, line %s) and afterwards reads %s, which may be the same register" % (
                       nm, "/".join(form), short(wid), last_seg(w["fn"]), w["line"], short(rid)))
     r.floor(90, "x86 handlers")
@@ -469,6 +472,87 @@ def r11(db, rep, runs):
                      nm, [sorted((a[8:], b) for a, b in s_) for s_ in got_sets]))
 
 
+WIDTH_KEYED = {"mul": 1, "imul": 1, "cmpxchg": 1, "div": 2, "idiv": 2}     # handler -> arm key / operand width
+
+
+def r12(db, rep):
+    r = rep.rule("R12", "K2", "implicit accumulator registers per operand width: inside the arm for operand width w of MUL/IMUL/DIV/IDIV/"
+                 "CMPXCHG only the w-bit members of the a- and d-families are named (al/ah/ax for w = 8)")
+    n = 0
+    for nm, div in sorted(WIDTH_KEYED.items()):
+        hb = db.hir.get(SEM + nm)
+        rep.anchor(hb is not None, "Semantics::%s" % nm)
+        for m in walk(hb["body"]):
+            if m.get("k") != "Match" or m.get("src") != "Normal":
+                continue
+            sc = m["scrut"]
+            unit = 1 if any(x.get("k") == "MethodCall" and x.get("name") == "bits" for x in walk(sc)) else \
+                8 if any(x.get("k") == "Field" and x.get("name") == "size" for x in walk(sc)) else None
+            if unit is None:
+                continue
+            for a in m["arms"]:
+                k = ilshape.int_pat(a["pat"])
+                if k is None:
+                    continue
+                w = k * unit // div
+                regs = sorted({last_seg(x["res"].get("def", ""))[8:] for x in walk(a["body"])
+                               if x.get("k") == "Path" and "X86_REG_" in (x.get("res", {}).get("def") or "")})
+                if not regs:
+                    continue
+                bad = []
+                for g in regs:
+                    fam = family(g)
+                    ok = fam is not None and fam[2] in ("AX", "DX") and (fam[0] == w or (w == 8 and g in ("AX", "AH", "AL")))
+                    if not ok:
+                        bad.append(g)
+                n += 1
+                r.decide(not bad, "x86|%s|w%d|%s" % (nm, w, "+".join(regs)), db.where(hb, a.get("l", m["l"])),
+                         "%s, %d-bit operand: names %s; the architecture uses only the %d-bit a/d registers" % (nm, w, bad, w))
+    r.floor(20, "width arms")
+
+
+# narrowing casts of decoder values that are architecturally exact (reviewed)
+CAST_OK = {
+}
+
+
+def r13(db, rep):
+    from mirterm import narrowing_casts, terms_of, show as tshow, subterms as tsub
+    from db import mir_calls, mir_callee
+    r = rep.rule("R13", "K9", "decoder displacements and immediates reach expr_const / Constant::new without passing through an integer "
+                 "cast narrower than the decoder's own type (a 64-bit moffs / immediate must not be squeezed through i32)")
+    n = 0
+    for fn in sorted(k for k in db.mir.keys() if k.startswith("translator::x86::mode::Mode::") and "{closure" not in k):
+        body = db.mir[fn]
+        tm = terms_of(db, fn, {})
+        for i, t in mir_calls(body):
+            c = mir_callee(t) or ""
+            if c not in ("il::expr_const", "il::constant::Constant::new"):
+                continue
+            v = tm.operand(t["args"][0])
+            bad = []
+            for x in tsub(v):
+                if isinstance(x, tuple) and x and x[0] == "cast" and len(x) >= 4 and x[3]:
+                    frm, to = bits_of_ty(x[3]), bits_of_ty(x[2])
+                    src_txt = tshow(x[1])
+                    from_decoder = any(isinstance(y, tuple) and y and y[0] == "call" and str(y[1]).startswith("falcon_capstone::") for y in tsub(x[1]))
+                    if frm and to and to < frm and from_decoder:
+                        bad.append((x[3], x[2], src_txt[:60]))
+            n += 1
+            key = "%s|%s|%d" % (last_seg(fn), last_seg(c), len([1 for j, _ in mir_calls(body) if j < i and (mir_callee(_) or "") == c]))
+            r.decide(not bad, "x86|" + key, db.where(body, t.get("l")),
+                     "%s builds a constant from %s narrowed %s -> %s: values that need the full width are truncated" % (
+                         last_seg(fn), bad[0][2] if bad else "", bad[0][0] if bad else "", bad[0][1] if bad else ""))
+    r.floor(6, "constants built from decoder values in mode.rs")
+
+
+def bits_of_ty(t):
+    m = re.fullmatch(r"[iu](8|16|32|64|128)", t or "")
+    if m:
+        return int(m.group(1))
+    return 64 if t in ("usize", "isize") else None
+
+
 def run(db, rep, feat, tier):
     rep.explanation = (
         "Static rules over the HIR of lib/translator/x86/**. Register rows are compared with the architectural families; "
@@ -491,6 +575,8 @@ def run(db, rep, feat, tier):
     r5(db, rep, hb, disp, term)
     r6(db, rep)
     r11(db, rep, runs)
+    r12(db, rep)
+    r13(db, rep)
     sub = {k: v for k, v in runs.items() if "translator::x86::" in k}
     c05.r2(db, rep, sub, ("x86",), "R7")
     c05.r3(db, rep, sub, ("x86",), "R8")
